@@ -22,6 +22,8 @@ def op_to_coq(o):
         return "WTick %s" % b(o.get("stale", False))
     if k == "Terminated":
         return "WTerminated %s" % g("ctrl")
+    if k == "QueueResult":
+        raise ValueError("durable-lane cases are oracle only")
     raise ValueError(o)
 
 
@@ -110,12 +112,12 @@ def oracle_c44(c):
         for m in g["toProd"]:
             if m[0] == 4:
                 stored[m[2]] = (m[3], m[4])
-        if op is not None and op["op"] == "StoredAck" and op.get("auth") and op.get("s", 0) == 1:
-            t = op.get("t", 0)
-            if t in stored and t not in acked_tokens and stored[t][0] == op.get("m", 0) and prev is not None \
-                    and prev["S"]["hs"] == 3 and prev["S"]["tok"] == t:
-                acked_tokens.add(t)
-                accepted[stored[t]] += 1
+        # a job is accepted when the handshake that stored it completes (StoredAck seen, and with a durable queue
+        # the Accept recorded): the controller's handshake returns to idle/credit with that token as last completed
+        if prev is not None and prev["S"]["hs"] in (3, 4) and S["hs"] in (0, 1) and S["ltok"] == prev["S"]["tok"] \
+                and S["lmid"] == prev["S"]["pmid"] and prev["S"]["tok"] not in acked_tokens:
+            acked_tokens.add(prev["S"]["tok"])
+            accepted[(prev["S"]["pmid"], prev["S"]["psseq"])] += 1
         for ctrl, ms in g["to"].items():
             for m in ms:
                 if m[0] == 2:
@@ -174,4 +176,14 @@ def oracle_c44(c):
         prev = g
         if bad:
             break
+    if not bad and c.get("durable") and not c.get("failed"):
+        notices = sorted(j[0] for j in confirmed)
+        qc = sorted(c.get("queue_confirmed") or [])
+        if c["notify"] and notices != qc:
+            bad.append(("durable:confirmation-not-persisted", "jobs confirmed to the producer %s, jobs the durable work queue holds as confirmed %s" % (notices, qc), len(c["obs"]) - 1))
+        held_now = sorted(j[0] for j in (Counter(prev["S"]["pending"]) + Counter((d[0], d[2]) for b_ in prev["S"]["bindings"] if b_ for d in b_["unconf"])).elements())
+        left = sorted(c.get("queue_left") or [])
+        pend_hs = [prev["S"]["pmid"]] if prev["S"]["hs"] in (3, 4) else []
+        if sorted(held_now + pend_hs) != left and sorted(held_now) != left:
+            bad.append(("durable:queue-and-controller-diverge", "queue still stores %s, controller holds %s (+ handshake %s)" % (left, held_now, pend_hs), len(c["obs"]) - 1))
     return bad
